@@ -2022,7 +2022,10 @@ func (interp *Interpreter) cfg(root *node, sc *scope, importPath, pkgName string
 					n.typ = sym.typ
 					n.sym = sym
 					n.recv = sym.recv
-					n.rval = sym.rval
+					if sym.kind != varSym {
+						// The initial value of a variable is not a constant value.
+						n.rval = sym.rval
+					}
 				} else {
 					err = n.cfgErrorf("undefined selector: %s.%s", pkg, name)
 				}
